@@ -1,5 +1,6 @@
 import InfernoVerif.Gen.TraceR
 import InfernoVerif.Gen.InterpolationR
+import InfernoVerif.Gen.SmoothingR
 import InfernoVerif.Model.Reducer
 import InfernoVerif.Lemmas.Recurrence
 import Mathlib.Tactic.Ring
@@ -17,7 +18,8 @@ the Python formula changes shape).
 namespace InfernoVerif.Trace
 open Finset Classical
 open InfernoVerif.Gen.TraceR
-open InfernoVerif.Reducer (foldSeq eventFold emaFold caFold passFold)
+open InfernoVerif.Gen.SmoothingR
+open InfernoVerif.Reducer (foldSeq eventFold caFold passFold)
 
 /-! ### generic steps -/
 
@@ -181,14 +183,14 @@ theorem exp_decay_pow (dt τ : ℝ) (m : ℕ) :
 
 /-! ### averages -/
 
-/-- exponential smoothing: `s₀ = x₀`, `s_{n+1} = α·x_{n+1} + (1−α)·sₙ`. -/
+/-- exponential smoothing (GENERATED `exponential_smoothing`): `s₀ = x₀`, `s_{n+1} = α·x_{n+1} + (1−α)·sₙ`. -/
 theorem ema_closed (a : ℝ) (o : ℕ → ℝ) (n : ℕ) :
-    foldSeq (fun _ ob s => emaFold (1 : ℝ) a ob s) o n =
+    foldSeq (fun _ ob s => exponential_smoothing ob s a) o n =
       (1 - a) ^ n * o 0 + ∑ k ∈ range n, a * o (k + 1) * (1 - a) ^ (n - 1 - k) := by
   induction n with
-  | zero => simp [foldSeq, emaFold]
+  | zero => simp [foldSeq, exponential_smoothing]
   | succ n ih =>
-    rw [foldSeq, emaFold, ih, sum_range_succ, mul_add, mul_sum]
+    rw [foldSeq, exponential_smoothing, ih, sum_range_succ, mul_add, mul_sum]
     simp only [Nat.add_sub_cancel, Nat.sub_self, pow_zero, mul_one]
     have : ∑ i ∈ range n, (1 - a) * (a * o (i + 1) * (1 - a) ^ (n - 1 - i)) =
         ∑ x ∈ range n, a * o (x + 1) * (1 - a) ^ (n - x) := by
